@@ -379,8 +379,14 @@ func c17Writes(m *c17Model) {
 			argEnv := site.clone()
 			argEnv.dot = false // the update runs on the stored value, not on the pipeline input
 			argEnv.paths = map[string]bool{}
+			// second opinion by kinds: a value that is never null or boolean is truthy
+			kenv := m.kindEnvAt(w.def, steps, c17KEnv{dot: c17KAny, vars: map[string]c17Kind{}}, w.call)
+			kenv.dot = c17KAny // the update runs on the stored value
+			argKind := m.kindExpr(w.def, w.call.Args[0], kenv, 0)
 			if m.truthyExpr(w.def, w.call.Args[0], argEnv, 0) {
 				ru.Ok(key, pos, "records a value that is always truthy: "+c17S(w.call.Args[0]))
+			} else if argKind != 0 && argKind&(c17KNull|c17KBool) == 0 {
+				ru.Ok(key, pos, "records a value that is never null or boolean ("+argKind.String()+"): "+c17S(w.call.Args[0]))
 			} else {
 				ru.Undecided(key, pos, "cannot show that the recorded value is always truthy (a null/false record is invisible to the exit status tests): "+c17S(w.call.Args[0]))
 			}
@@ -835,10 +841,14 @@ func c17Inputs(m *c17Model) {
 			hi := c17IsIf(t.Catch)
 			if rp != nil && fw.JQIsCall(rp.Args[0], rb.Def.Args[0], 0) != nil && hi != nil && len(hi.Elif) == 0 {
 				c := c17Unparen(hi.Cond)
-				if c.Op == gojq.OpEq && c17IsIdentity(c.Left) {
+				onTok, other := hi.Then, hi.Else
+				if c.Op == gojq.OpNe {
+					onTok, other = hi.Else, hi.Then // if . != tok then error else empty end
+				}
+				if (c.Op == gojq.OpEq || c.Op == gojq.OpNe) && c17IsIdentity(c.Left) {
 					tok, _ = fw.JQConstString(c.Right)
 				}
-				ok = fw.JQIsCall(hi.Then, "empty", 0) != nil && hi.Else != nil && fw.JQIsCall(hi.Else, "error", 0) != nil
+				ok = onTok != nil && other != nil && fw.JQIsCall(onTok, "empty", 0) != nil && fw.JQIsCall(other, "error", 0) != nil
 			}
 		}
 		ru.Check(ok, "_repeat_break:shape", c17Pos(rb), "try repeat(f) catch if . == tok then empty else error end", "_repeat_break does not turn exactly the break token into end-of-stream and re-raise everything else: "+c17S(rb.Def.Body))
@@ -855,7 +865,7 @@ func c17Inputs(m *c17Model) {
 // newline stripped, split at "\n"; with --slurp one string)
 
 func c17RawInput(m *c17Model) {
-	ru := m.r.Rule("C17.rawinput", "raw input mode (_input_string): chunks of all inputs are joined, exactly one trailing \"\\n\" is removed (rtrimstr(\"\\n\")) and the text is split at \"\\n\"; lines are handed out head first with the tail stored back, an exhausted list breaks; --slurp yields the joined text once", 7)
+	ru := m.r.Rule("C17.rawinput", "raw input mode (_input_string): chunks of all inputs are joined, exactly one trailing \"\\n\" is removed (rtrimstr(\"\\n\")) and the text is split at \"\\n\"; lines are handed out head first with the tail stored back, an exhausted list breaks; --slurp (and only --slurp) yields the joined text once", 8)
 	in := m.def(ru, "input", 0)
 	if in == nil {
 		return
@@ -960,6 +970,7 @@ func c17RawInput(m *c17Model) {
 		}
 		ru.Check(ok, "slurp:joined", pos, "-Rs: one string, next input breaks", "raw input with --slurp does not yield the chunks joined into one string after emptying the line list")
 	}
+	c17RawInputMore(m, ru, d, pos, drain, split)
 }
 
 type c17BindSite struct {
